@@ -9,6 +9,7 @@ import (
 	"io"
 	"os"
 	"os/exec"
+	"runtime"
 	"strings"
 	"sync"
 	"time"
@@ -251,7 +252,11 @@ var EntryPoints = []EntryPoint{
 		var l []userDoc
 		err2 := control.Unmarshal(&l, rd(in))
 		e2, t2 := errRes(err2)
-		return Result{fmt.Sprintf("%+v|%v|%d %v %s", n.flat(), n.Parent == nil && n.Next == nil, len(l), e2, t2), e, t, false, ""}
+		// and one that embeds pointers to structs of its own (an exported and an unexported type, both unset)
+		var w wrappedDoc
+		err3 := control.Unmarshal(&w, rd(in))
+		e3, t3 := errRes(err3)
+		return Result{fmt.Sprintf("%+v|%v|%d %v %s|%s %v %s", n.flat(), n.Parent == nil && n.Next == nil, len(l), e2, t2, w.flat(), e3, t3), e, t, false, ""}
 	}},
 	{"changelog.Parse", func(in string) Result {
 		l, err := changelog.Parse(rd(in))
@@ -285,12 +290,47 @@ type userDoc struct {
 	note    string
 }
 
+// UserExtra / userPrivate: structs a caller's document type embeds by pointer.
+type UserExtra struct {
+	Section  string
+	Priority string
+}
+
+type userPrivate struct {
+	Origin string
+}
+
+type wrappedDoc struct {
+	*UserExtra
+	*userPrivate
+	Package string
+	Version version.Version
+}
+
+func (w wrappedDoc) flat() string {
+	x, p := "<nil>", "<nil>"
+	if w.UserExtra != nil {
+		x = fmt.Sprintf("%+v", *w.UserExtra)
+	}
+	if w.userPrivate != nil {
+		p = fmt.Sprintf("%+v", *w.userPrivate)
+	}
+	return fmt.Sprintf("%s|%s|%s|%s", w.Package, w.Version, x, p)
+}
+
 func (n userDoc) flat() string {
 	v := "<nil>"
 	if n.Version != nil {
 		v = n.Version.String()
 	}
 	return fmt.Sprintf("%s|%s|%s|%s|%v", n.Package, v, gen.CanonDep(&n.Depends), n.Note, n.Order)
+}
+
+func init() {
+	// the receiver forms start from the same seed texts as the functions they mirror
+	seeds["version.Version.UnmarshalControl"] = seeds["version.Parse"]
+	seeds["dependency.Arch.UnmarshalControl"] = seeds["dependency.ParseArch"]
+	seeds["dependency.Dependency.UnmarshalControl"] = seeds["dependency.Parse"]
 }
 
 func entry(name string) *EntryPoint {
@@ -389,10 +429,10 @@ func alphabets(quick bool) []alpha {
 		typed = typedTokens[:typedQuick]
 	}
 	return []alpha{
-		{[]string{"version.Parse", "version.Version.UnmarshalControl"}, []string{"0", "1", "a", ".", "+", "~", "-", ":", " ", "\t", "é", "٣"}, 5, 7, false},
-		{[]string{"dependency.ParseArch", "dependency.Arch.UnmarshalControl", "dependency.ParseArchitectures"}, []string{"a", "-", " ", "any", "all", "\n", "é", "!"}, 6, 8, false},
-		{[]string{"dependency.Parse", "dependency.Dependency.UnmarshalControl"}, []string{"a", "b1", " ", ",", "|", "(", ")", "[", "]", "<", ">", "!", ":", "=", "$", "{", "}", "\n", "-", "é", ">=", "\t"}, 4, 5, false},
-		{[]string{"control.ParagraphReader", "control.ParagraphReader.Next"}, []string{"A", ":", " ", "\n", "#", ".", "\r", "\t", "é"}, 6, 8, false},
+		{[]string{"version.Parse", "version.Version.UnmarshalControl"}, []string{"0", "1", "a", ".", "+", "~", "-", ":", " ", "\t", "é", "٣", "\f", "\xa0"}, 5, 7, false},
+		{[]string{"dependency.ParseArch", "dependency.Arch.UnmarshalControl", "dependency.ParseArchitectures"}, []string{"a", "-", " ", "any", "all", "\n", "é", "!", "\f", "\xa0"}, 6, 8, false},
+		{[]string{"dependency.Parse", "dependency.Dependency.UnmarshalControl"}, []string{"a", "b1", " ", ",", "|", "(", ")", "[", "]", "<", ">", "!", ":", "=", "$", "{", "}", "\n", "-", "é", ">=", "\t", "\f", "\xa0"}, 4, 5, false},
+		{[]string{"control.ParagraphReader", "control.ParagraphReader.Next"}, []string{"A", ":", " ", "\n", "#", ".", "\r", "\t", "é", "\f", "\xa0"}, 6, 8, false},
 		{[]string{"control.ParseDsc", "control.ParseChanges", "control.ParseControl", "control.ParseBinaryIndex", "control.ParseSourceIndex", "deb.Control", "control.Unmarshal(user document)"}, typed, 4, 4, true},
 		{[]string{"changelog.Parse", "changelog.ParseOne"}, []string{"hello", " (", "1.0-1", ")", " unstable", ";", " urgency=low", "\n", "  * x", " -- ", "A <a@b>", "  ", "Mon, 02 Jan 2006 15:04:05 +0100", " ", "=", ",",
 			"hello (1.0-1) unstable; urgency=low\n", " -- A <a@b>  Mon, 02 Jan 2006 15:04:05 +0100\n", "  * change\n"}, 4, 5, false},
@@ -478,8 +518,32 @@ func (s *slot) leave() {
 // watchdog reports a call that has not returned for 120 s (normal calls take microseconds, the slowest long input
 // about 0.2 s) and ends the run.
 func watchdog(r *mc.Run) {
+	var ms runtime.MemStats
 	for {
 		time.Sleep(2 * time.Second)
+		// a call that does not return may also allocate without end (a loop that appends): the run is ended long before
+		// the machine is out of memory, and the call that has been busy longest is reported. 8 GiB is far above what the
+		// enumeration needs (a few hundred MiB) and far below what the machine has.
+		runtime.ReadMemStats(&ms)
+		if ms.HeapAlloc > 8<<30 {
+			var oldest *slot
+			for i := range slots {
+				s := &slots[i]
+				s.mu.Lock()
+				if s.busy && (oldest == nil || s.since.Before(oldest.since)) {
+					oldest = s
+				}
+				s.mu.Unlock()
+			}
+			in := In{"(unknown)", ""}
+			if oldest != nil {
+				oldest.mu.Lock()
+				in = In{oldest.entry, oldest.text}
+				oldest.mu.Unlock()
+			}
+			r.Abort("totality-hang-watchdog", mc.V("totality-hang-watchdog", "returns-without-hanging", in, "the call returns", fmt.Sprintf("the process holds %d MiB of live heap while this call (the one busy longest) has not returned", ms.HeapAlloc>>20), "entry:"+in.Entry),
+				"a parser call allocates without returning; the enumeration was abandoned")
+		}
 		for i := range slots {
 			s := &slots[i]
 			s.mu.Lock()
@@ -563,7 +627,7 @@ func runTotality(r *mc.Run) {
 	}
 }
 
-var editBytes = []byte{0, ' ', '\n', ':', '-', '(', '[', '<', '$', ',', '0', 'a', 0xff}
+var editBytes = []byte{0, ' ', '\n', ':', '-', '(', '[', '<', '$', ',', '0', 'a', 0xff, '\f', 0x85, 0xa0} // the last three: white space to unicode.IsSpace(rune(b)), not to the parsers
 
 func editAlphabet() []byte {
 	out := append([]byte{}, editBytes...)
